@@ -32,6 +32,8 @@ def biased_grammar(r):
     if r.random() < 0.3:
         return twin_words(r)
     if r.random() < 0.15:
+        return special_texts(r)
+    if r.random() < 0.15:
         # one literal text with two descriptions, expected at different points (legal: no conflict at one point)
         t = r.choice(['web', 'all', 'x'])
         others = r.sample(['status', 'up', 'down', 'go'], 2)
@@ -68,6 +70,27 @@ def biased_grammar(r):
     if r.random() < 0.3:
         e = alt(e, fb(lit('l0'), lit('l1'), lit('l2')))
     return [call('cmd', e)]
+
+
+SPECIAL_TEXTS = ['a$b', 'q"r', 'b`t', 'c\\d', '$x', "it's", '${HOME}', '$(id)', 'e\\', 'x*y', '[z]', 'h#i', 'tab\there'
+                 if False else 't!u', '%s', 'a&b']
+
+
+def special_texts(r):
+    """Literal and description texts with characters that are special inside each shell's double quotes, at top
+    level, in one word and in two words of the same shape: the tables, read with the shell's own rules, must hold
+    exactly these texts."""
+    top = r.sample(SPECIAL_TEXTS, r.randint(2, 4))
+    rest = [t for t in SPECIAL_TEXTS if t not in top]
+    v1 = r.sample(rest, 2)
+    rest = [t for t in rest if t not in v1]
+    v2 = r.sample(rest, 2)
+    descs = ['costs $5', 'say "hi"', 'back`tick`', 'back\\slash', None, None]
+    branches = [lit(t, r.choice(descs)) for t in top]
+    branches.append(('word', (lit('--k='), alt(lit(v1[0], r.choice(descs)), lit(v1[1])))))
+    if r.random() < 0.6:
+        branches.append(('word', (lit('--j='), alt(lit(v2[0], r.choice(descs)), lit(v2[1])))))
+    return [call('cmd', seq(alt(*branches), lit('end')))]
 
 
 def twin_words(r):
@@ -274,8 +297,11 @@ def bash_reader(script):
     direct = ["_cmd_subword_%d matches ''" % k for k in ids]
     res = bashrun.run_session(script, 'cmd', [{'words': ['cmd', ''], 'cword': 1, 'wb': ''}], dump=True,
                               direct_calls=direct)
-    if res['timed_out'] or res['source_rc'] != 0:
-        raise readers.ReaderError('bash could not load the script: %s' % res['stderr'][:300])
+    if res['timed_out']:
+        raise readers.ReaderError('bash session timed out')
+    if res['source_rc'] != 0:
+        # bash itself refuses the script: its tables cannot describe anything
+        raise readers.TableInconsistent('bash cannot load the script: %s' % res['stderr'][:300])
     R = readers.read_bash_dump(script, res['dumps'])
     # tables the shared matcher reads must be locals of every wrapper (or its shape function): in bash a
     # missing local silently resolves to the caller's table of the same name (dynamic scoping)
